@@ -1135,7 +1135,13 @@ class Gen:
         if r:
             n = self.length(r)
             k = self.rng.choice([0, max(0, n - 2), max(0, n - 1), n, n + 1, n + 3])
-            self.do({'op': 'assign_str', 'r': r, 'text': ''.join(self.rng.choice(self.alpha) for _ in range(k))})
+            src = self.pick('A') if self.rng.random() < 0.2 else 0
+            if src:
+                self.do({'op': 'assign_str', 'r': r, 'src': src})       # an AnsiStr is a str: its text is assigned
+                if self.room(3):
+                    self.do({'op': 'slice', 'r': r, 'start': self.rng.choice([None, 0, 1]), 'stop': None})
+            else:
+                self.do({'op': 'assign_str', 'r': r, 'text': ''.join(self.rng.choice(self.alpha) for _ in range(k))})
 
     def g_query(self):
         r = self.pick()
